@@ -26,10 +26,17 @@ func (w *World) exec(op Op) {
 			defer func() { w.x.suppress = sup }()
 		}
 	}
-	busy := w.naturalGC() && w.backgroundBusy()
-	if busy {
+	// a collection (ticker, or the expiry of an idle repository) may have run since the last operation or be running now
+	gcPossible := !w.k.readOnly() && (w.naturalGC() || w.k.grace() > 0)
+	busy := false
+	if gcPossible {
 		w.markCollectable()
-		w.x.out.probe("op-while-background-busy")
+		if w.naturalGC() {
+			busy = w.backgroundBusy()
+			if busy {
+				w.x.out.probe("op-while-background-busy")
+			}
+		}
 	}
 	switch op.K {
 	case "blob":
@@ -72,9 +79,10 @@ func (w *World) exec(op Op) {
 		w.quiet = true
 		w.x.suppress = true
 	}
-	if busy || (w.naturalGC() && w.backgroundBusy()) {
+	if gcPossible {
 		w.markCollectable()
 	}
+	_ = busy
 }
 
 func engineSeq(x *X) {
@@ -115,6 +123,9 @@ func engineSeq(x *X) {
 		}
 	}
 	if len(x.out.Viol) == 0 {
+		if !w.k.readOnly() {
+			w.markCollectable() // Close collects every open repository
+		}
 		if err := w.close(); err != nil {
 			x.out.probe("close-returned-error")
 			_ = err
